@@ -64,6 +64,24 @@ CLAIMED['C20'] = dict(
     note='Trusted: Lean kernel; POSIX rename/remove; OS-level partial writes; the restoring rename not failing. The compose theorem (C01 . C14 . JSON) is not yet stated in Lean: '
          'that clause is observed, not proved.',
     technique='Lean 4 proof (case analysis over fault points of a state machine) + differential correspondence with in-process fault injection')
+CLAIMED['C06'] = dict(
+    text='Lean 4 theorems over a pure model of DeepHash._hash (every hasher, every value size/nesting): the hash of a dict does not depend on insertion order in any mode; '
+         'of a set/frozenset on its listing (hence on PYTHONHASHSEED) and of a list/tuple on item order in the order-insensitive modes; a container depends on its children '
+         'only through their hashes (permutations at any depth propagate). Negative witness in Lean for sets in the ordered mode (F19). The model is tied to the code by '
+         'bit-for-bit digest and count comparison (own SHA-256) over generated values x 4 modes, incl. apply_hash=False serialisations; deep copies, re-inserted dicts, '
+         'permuted lists, shared / pre-seeded / long-lived tables and 3-16 PYTHONHASHSEED subprocesses are evaluated on the implementation.',
+    design='5/C06',
+    note='Trusted: Lean kernel; hashlib.sha256 (parameter). Partial: the memo-table transparency theorem is not proved yet (observed on the implementation inside NoNumAlias; '
+         'finding F6 is its boundary witness).',
+    technique='Lean 4 proof (permutation invariance via sorted-permutation uniqueness) + bit-exact differential correspondence')
+CLAIMED['C07'] = dict(
+    text='PARTIAL. Machine-checked so far: the pre-image collisions that exist for every hasher (strings spelling a serialisation, repeats in the ordered mode, '
+         'apply_hash=False framing) as Lean theorems, one positive tag lemma, and the bit-exact model correspondence. The injectivity theorem itself (injective hasher, hex digests, '
+         'NoSpoof, NoNumAlias => equal hashes only for equivalent values) is stated in DESIGN but not yet proved; inside that domain the property is decided by evaluation: '
+         'all pairs of a near-collision pool x 3 modes against an independent reference equivalence.',
+    design='5/C07',
+    note='Trusted: Lean kernel; SHA-256 collision freedom. The positive claim rests on evaluation until C07_injective is proved. Known findings F5a-d, F7.',
+    technique='Lean 4 negative-witness theorems + bit-exact correspondence; positive direction by exhaustive pairing of a near-collision pool')
 NA = {}
 
 checks = []
